@@ -17,6 +17,10 @@ SETS = {   # programs and bindings chosen so that every thread's solo result dif
               [{"x": 1}, {"x": 0}, {"x": 5}, {"x": -9}]),
     "cond": (["x > 0 ? x + 1 : x - 1", "x > 5 ? x * 2 : x * 3", "x > 2 ? x - 7 : x + 7", "x > 9 ? x + 5 : x * 5"],
              [{"x": 1}, {"x": 10}, {"x": 2}, {"x": 20}]),
+    # deeply nested, legal expressions: fine alone, but only with a recursion limit above Python's default 1000
+    "deep": (["(" * 40 + "x + k" + ")" * 40, "(" * 36 + "x * k" + ")" * 36 + " - 1",
+              "(" * 44 + "x - k" + ")" * 44, "(" * 38 + "x + k + k" + ")" * 38],
+             [{"x": 1, "k": 10}, {"x": 6, "k": 7}, {"x": 50, "k": 8}, {"x": 3, "k": 100}]),
     "macro": (["[x, 2].map(y, y * x)", "[x, 3].map(y, y + x)", "[x, 4].map(y, y - x)", "[x, 5].map(y, y + x + x)"],
               [{"x": 2}, {"x": 5}, {"x": 7}, {"x": 11}]),
 }
@@ -27,20 +31,28 @@ SHAPES = {   # (threads, evaluations per thread, warm parser, context-switch bou
 BOUNDS = {
     "quick": {"threads": 2, "evaluations per thread": 1, "context switches": "<= 4, at traced-line boundaries",
               "workloads": sorted(SETS), "runners": ["interp", "compiled"],
-              "initial state": "parser singleton cleared (every thread may build it)"},
+              "initial state": "parser singleton cleared (every thread may build it); recursion limit 1000 (Python's default)"},
     "thorough": {"threads": "2, 3, 4", "evaluations per thread": "1 or 2", "context switches": "<= 4 / 5",
                  "workloads": sorted(SETS), "runners": ["interp", "compiled"],
-                 "initial state": "parser singleton cleared; for 4 threads: already built by an earlier Environment"},
+                 "initial state": "parser singleton cleared; for 4 threads: already built by an earlier Environment; "
+                                  "recursion limit 1000 (Python's default) in every scenario"},
 }
 OUTSIDE = [
     "granularity: a thread is pre-empted only where a traced source line of src/celpy/* or of the exec-ed <string> code "
     "begins (a step = that line event up to the thread's next one); switches inside a line's byte-code are not explored",
     "tracked shared state only: module globals (incl. writes through a module __dict__), celpy class attributes, and "
     "attributes/constant-key dict items of any object two workloads both touch, where the receiver is a plain "
-    "name(.attr)* chain; receivers computed otherwise (counted in evidence as unresolved), in-place container methods, "
+    "name(.attr)* chain; plus the pseudo locations interpreter::{recursionlimit, switchinterval, decimalcontext, locale}, "
+    "written/read where the code loads sys.set/getrecursionlimit, sys.set/getswitchinterval, decimal.setcontext/"
+    "getcontext/localcontext, locale.setlocale (decimal contexts are per-thread in CPython: deviations there replay "
+    "benign); other process-wide setters (os.environ, warnings filters, signal, ...) are not tracked; receivers computed otherwise (counted in evidence as unresolved), in-place container methods, "
     "C-level state (re / functools caches, logging) and everything inside Lark are not modelled",
     "objects reachable only from a thread's own Environment / program / bindings are assumed thread-local (that is the "
     "documented contract); all threads of a scenario use the same runner class (parser specialisation is C05)",
+    "the interpreter's implicit reads of the recursion limit (on every call) are not byte-code events: when some "
+    "workload touches the limit explicitly, each thread gets ONE synthetic read per stretch between its explicit accesses, "
+    "at the stretch's deepest stack point; what a foreign write does to a thread is visible only through the replayed "
+    "result of that one schedule per (write, synthetic read), with programs nested 36-44 levels (limit needed: >1000, <2500)",
     "events come from each workload's solo run: after the first deviating read a thread may leave that control flow; "
     "the replay then shows what really happens, but accesses that exist only on such a path are not in the model",
     "benign/violation is judged on the scenario's programs and bindings (chosen to discriminate), not for all inputs",
@@ -54,6 +66,9 @@ ASSUMPTIONS = [
     "in-place size/identity change of a celpy module global or class attribute seen by a before/after snapshot must have "
     "an extracted write event, else the run is a harness error)",
     "delaying a thread at a line boundary does not itself change what the code computes",
+    "every scenario (extraction, solo runs, forced replays, clean-interpreter oracle) starts from recursion limit 1000 and "
+    "the previous limit is put back afterwards; a change of the limit or switch interval by a workload without an "
+    "extracted write event is a harness error (same snapshot guard)",
 ]
 TRUSTED = ["z3 5.1", "CPython 3.12 sys.monitoring, dis, threading", "vf.sched (events, smt, replay)", "vf.oracles.c16"]
 WITNESS_OB = "C16/{runner}/result-differs-under-schedule"
@@ -88,6 +103,13 @@ def run_task(task, kf):
            "queries": 0, "display": 0, "aborted": 0, "solver_s": 0.0, "budget_exhausted": False, "pins": {},
            "ob_ids": {ob_all: 1}, "funcs": [], "samples": [], "known_hits": {}, "errors": [], "validate": [], "violations": []}
     sc = events.scenario(runner, programs, bindings, evals, warm)
+    try:
+        return _run(task, kf, sc, res, hid, ob_viol, runner, programs, bindings, evals, warm, t0, smt, replay)
+    finally:
+        sc["state"].close()            # recursion limit etc. back to what the worker had
+
+
+def _run(task, kf, sc, res, hid, ob_viol, runner, programs, bindings, evals, warm, t0, smt, replay):
     res["errors"] += sc["errors"]
     res["funcs"] = sc["funcs"]
     res["transitions"] = sc["stats"].get("relevant-accesses", 0)
@@ -161,7 +183,7 @@ MANIFEST = {
     "text": "Shared-state read/write events are extracted from the real byte-code of each thread's workload (sys.monitoring line/instruction events, namespaces by identity); "
             "z3 enumerates every interleaving (bounded context switches) whose reads-from relation differs from the solo runs; each such schedule is forced on the real code "
             "with real threads and line gates, and only a replay whose result differs from the solo result is a violation. unsat closes each scenario.",
-    "note": "Line granularity, tracked shared state only (module globals, celpy class attributes), 2-4 threads, <= 5 context switches. Lark internals, C-level caches and "
+    "note": "Line granularity, tracked shared state only (module globals, celpy class attributes, process-wide interpreter settings behind sys/decimal/locale accessors with a synthetic deepest-point read of the recursion limit), 2-4 threads, <= 5 context switches. Lark internals, C-level caches and "
             "free-running stress are outside; an unforceable schedule is inconclusive, never an alarm.",
     "technique": "SMT (z3) encoding of thread interleavings over byte-code-level shared-state events; forced-schedule replay on the real code",
     "design_ref": "DESIGN.md §3.2, §7 C16",
